@@ -94,11 +94,12 @@ def run(ck):
         bw = 'adaptive' if (i % 3 == 1 and kern != 'sum_power_laplace') else 'constant'
         X = xr.make_X('random', n, d, rng); y = xr.make_y(task, X, rng)
         Xv = xr.make_X('random', 50, d, rng); yv = xr.make_y(task, Xv, rng)
-        desc = dict(i=i, kernel=kern, task=task, cmode=cmode, n_trees=n_trees, n=n, L=L, f=f, bw=bw, tuned=tuned, fixedT=fixedT, diag=bool(i % 2), seed=ck.seed)
+        desc = dict(i=i, kernel=kern, task=task, cmode=cmode, n_trees=n_trees, n=n, L=L, f=f, bw=bw, tuned=tuned, fixedT=fixedT, diag=bool(i % 2), tree_iters=int(i % 4 == 2), seed=ck.seed)
         ctor = dict(rfm_params=xr.default_rfm_params(kernel=kern, iters=1, diag=bool(i % 2), bandwidth=3.0, exponent=[1.0, 1.2][i % 2],
                                                      bandwidth_mode=bw, reg=1e-2, **extra),
                     max_leaf_size=L, n_trees=n_trees, overlap_fraction=f, verbose=False, classification_mode=cmode,
-                    use_temperature_tuning=tuned, split_temperature=fixedT, temp_tuning_space=[0.0, 0.1, 0.7, 2.5], refill_size=20)
+                    use_temperature_tuning=tuned, split_temperature=fixedT, temp_tuning_space=[0.0, 0.1, 0.7, 2.5], refill_size=20,
+                    **(dict(split_method='random_global_agop', n_tree_iters=1) if i % 4 == 2 else {}))
         xr.seed_all(3100 + i + ck.seed)
         src = xr.xRFM(**copy.deepcopy(ctor))
         try:
